@@ -23,8 +23,7 @@ ASSUMPTIONS = [A_REAL, A_ENGINE, "A-BRENT: scipy.optimize.brentq returns a point
                "calc_effective_borehole_resistance reads the stored delta-circuit (ghosts g_rd_kg / g_rd_rfp name what it was last built from); update_thermal_resistances rebuilds it from k_g and R_fp "
                "(taken from pygfunction's source); copy.deepcopy gives a fresh equal object graph; ln x > 0 for x > 1 (instantiated)",
                "preconditions that are solve_root's own (residuals nonzero at the bracket ends) are stated as preconditions of the conversion functions"]
-NOT_PROVED = ["the coaxial composition CoaxialPipe.to_single (same two callees, list-valued pipe fields) is covered by the run-time contract only",
-              "R_fp reproduced and R_b* within 0.1 %: pygfunction multipole numerics behind brentq - bounded run-time contract; R_b* clause is violated on the unchanged tree (known finding D16)"]
+NOT_PROVED = ["R_fp reproduced and R_b* within 0.1 %: pygfunction multipole numerics behind brentq - bounded run-time contract; R_b* clause is violated on the unchanged tree (known finding D16)"]
 EXPLANATION = ("The bulk quantities handed to the conversion are proved to be the geometric ones: double U-tube n pi r_in^2 and n pi (r_out^2 - r_in^2) with n = 2 nPipes legs, "
                "pipe resistance ln(r_out/r_in)/(n 2 pi k); coaxial: core plus annulus, both walls, outer-wall resistance. A lemma shows the equal-volume radii sqrt(V/(2 pi)) reproduce "
                "both volumes exactly with r_out' > r_in'. SingleUTube.to_single returns the object itself. solve_root (the root helper of both matching steps) is proved against A-BRENT: "
